@@ -588,15 +588,13 @@ func TestVerifC19(t *testing.T) {
 	note := func(s string) { bounds = append(bounds, s) }
 
 	// Part A: full universe.
+	c.block("A1", both, full, 3, all, 0, &idx)
+	note("api and ipItemsMake: all tuples of <=3 of the 56 in-family ranges")
 	if r.Thorough() {
-		c.block("A1", []string{"api"}, full, 4, all, 1, &idx)
-		note("api: all tuples of <=4 of the 56 in-family ranges x <=1 of 16 singles")
-		c.block("A2", []string{"trust"}, full, 3, all, 1, &idx)
-		c.block("A3", []string{"trust"}, full, 4, all, 0, &idx)
-		note("ipItemsMake: <=3 ranges x <=1 single, and <=4 ranges")
-	} else {
-		c.block("A1", both, full, 3, all, 0, &idx)
-		note("api and ipItemsMake: all tuples of <=3 of the 56 in-family ranges")
+		c.sequences("A3", []string{"api"}, full, 4, &idx)
+		note("api: all tuples of exactly 4 of the 56 in-family ranges")
+		c.block("A2", both, full, 3, all, 1, &idx)
+		note("api and ipItemsMake: <=3 ranges x <=1 of 16 singles")
 	}
 	c.block("A4", both, full, 2, all, 2, &idx)
 	note("api and ipItemsMake: <=2 ranges x <=2 singles")
@@ -621,16 +619,24 @@ func TestVerifC19(t *testing.T) {
 		{{0, 2}, {4, 5}, {8, 9}},    // v6 starting at ::, disjoint v6, v4
 		{{0, 2}, {1, 4}, {3, 3}},    // v6 starting at :: overlapping, plus a single
 	}
-	nsym, maxn := r.Pick(2, 3), r.Pick(14, 15)
-	for n := 13; n <= maxn; n++ {
+	for n := 13; n <= r.Pick(14, 16); n++ {
 		for ai, a := range alphas {
 			if r.Expired("D") {
 				break
 			}
-			c.sequences(fmt.Sprintf("D%d", ai), []string{"api"}, a[:nsym], n, &idx)
+			c.sequences(fmt.Sprintf("D%d/2", ai), []string{"api"}, a[:2], n, &idx)
 		}
 	}
-	note(fmt.Sprintf("api: every sequence of 13..%d items over each of 4 alphabets of %d symbols", maxn, nsym))
+	note(fmt.Sprintf("api: every sequence of 13..%d items over each of 4 alphabets of 2 symbols", r.Pick(14, 16)))
+	if r.Thorough() {
+		for ai, a := range alphas {
+			if r.Expired("D") {
+				break
+			}
+			c.sequences(fmt.Sprintf("D%d/3", ai), []string{"api"}, a, 13, &idx)
+		}
+		note("api: every sequence of 13 items over each of 4 alphabets of 3 symbols")
+	}
 	r.Set("bounds", strings.Join(bounds, "; "))
 	r.Set("universe", strings.Join(c19names, " "))
 }
